@@ -282,4 +282,12 @@ def rule_no_address_dependence(ctx):
     r.ok("all-binary-operators", None, "%d binary operators, %d pointer-keyed containers" % (n_bin, len(found)))
 
 
-RULES = [rule_funnel, rule_observers_pure, rule_no_ambient_input, rule_no_address_dependence]
+def rule_delivery_independence(ctx):
+    """A file delivered through a -F list or as one of several positional arguments must give the bytes it gives alone
+    (-f): that is exactly the reset discipline of C11, so the same rule instance set is an obligation of C10 too.  The
+    rule keeps its C11 identifier so that its reviewed exceptions (rules/exceptions.json) are shared."""
+    from . import c11
+    c11.rule_reset(ctx, rid="C11.reset")
+
+
+RULES = [rule_funnel, rule_observers_pure, rule_no_ambient_input, rule_no_address_dependence, rule_delivery_independence]
